@@ -6,6 +6,7 @@ int main(int argc, char **argv)
 {
     if (argc < 2) return 3;
     Args a = parse_args(argc, argv);
+    if (std::string(argv[1]).find(".predicates.") != std::string::npos) return predicates(a);
     RCP<const Basic> x = ghost_obj(a, "a"), y = ghost_obj(a, "b");
     double vx, vy;
     bool rx = ghost_real(a, "a", vx), ry = ghost_real(a, "b", vy);
